@@ -144,3 +144,52 @@ macro_rules! c11_wide {
         });
     };
 }
+
+/// Wide values in general radices (repeated division by radix^power): concrete most significant digit, all lower digits symbolic.
+/// Oracle: every digit < radix, most significant digit non-zero, Horner evaluation in exact limb arithmetic equals the value
+/// (uniqueness of positional notation makes that the canonical numeral).  u64-limb view of the digit array.
+#[macro_export]
+macro_rules! c11_wide_gen {
+    ($name:ident, $unw:expr, $T:ty, $D:ty, $N:expr, $R:expr, $MAXD:expr, $L64:expr, $top:expr) => {
+        $crate::harness!($name, $unw, {
+            use $crate::util::*;
+            const DB: usize = <$D>::BITS as usize;
+            let mut xd: [$D; $N] = $crate::nd::nd();
+            let top: $D = $top;
+            xd[$N - 1] = top;
+            let x = <$T as BN<$D, $N>>::mk(xd);
+            let le = x.to_radix_le($R);
+            let n = le.len();
+            assert!(n >= 1 && n <= $MAXD, "digit count within the bound for this width");
+            // Horner, most significant digit first, in $L64 + 1 u64 limbs
+            let mut acc = [0u64; $L64 + 1];
+            let mut k = $MAXD;
+            while k > 0 {
+                k -= 1;
+                if k < n {
+                    assert!((le[k] as u32) < $R, "every digit is below the radix");
+                    let mut carry: u128 = le[k] as u128;
+                    let mut t = 0;
+                    while t < $L64 + 1 { let v = (acc[t] as u128) * ($R as u128) + carry; acc[t] = v as u64; carry = v >> 64; t += 1; }
+                    assert!(carry == 0, "the numeral does not exceed the width");
+                }
+            }
+            // compare with the value
+            let mut t = 0;
+            while t < $L64 + 1 {
+                let mut limb: u64 = 0;
+                let mut b = 0;
+                while b < 64 / DB { let idx = t * (64 / DB) + b; if idx < $N { limb |= (xd[idx] as u64) << (b * DB); } b += 1; }
+                assert!(acc[t] == limb, "the digits denote the value (Horner)");
+                t += 1;
+            }
+            assert!(le[n - 1] != 0, "no leading zero");
+            let be = x.to_radix_be($R);
+            let j: usize = $crate::nd::nd();
+            $crate::nd::assume(j < n);
+            assert!(be.len() == n && be[n - 1 - j] == le[j], "to_radix_be is the reverse");
+            core::mem::forget(le); core::mem::forget(be);
+            $crate::reach!(n == $MAXD, "maximal digit count");
+        });
+    };
+}
